@@ -14,6 +14,9 @@ or weakens a guard makes the build fail, which the check reports as a broken pro
   name is there) holds at every call of an executor in the source.
 * `const_access_defined` / `rel_access_defined`: what the numbers mean — any list at least as long as the guaranteed minimum has every
   element the site reads.
+* `nil_unguarded_inventory`: non-`,ok` type assertions and dereferences of values returned by nil-capable lookups (`LPop`, `Index`,
+  `GetByName`, `ExecCommand`, …) are classed `guarded` when a `, ok` flag tested true or a `!= nil` test dominates them on every path; the
+  unguarded ones are exactly the reviewed list `expectedNilUnguarded`.  A new `x := list.Index(i); x.Val` without a nil test breaks it.
 * `dynamic_inventory`: the sites for which the extractor established NO bound are exactly the hand-reviewed list `expectedDynamic`
   (each with the reason it cannot go out of range, or that only the enumeration covers it).  A new unguarded site breaks it.
 
@@ -324,5 +327,29 @@ def expectedDynamic : List (String × String × String) := [
 
 /-- the unguarded sites in the source are exactly the reviewed ones — re-proved against the regenerated list on every run -/
 theorem dynamic_inventory : Generated.dynamicSites = expectedDynamic := by decide +kernel
+
+/-- Non-`,ok` type assertions and dereferences of possibly-nil lookup results that NO presence / nil test dominates, reviewed by hand:
+    (file, function, kind + text `<-` the nil-capable callee). -/
+def expectedNilUnguarded : List (String × String × String) := [
+  -- reached only after `srcList.Len == 0` returned: Len >= 1, so LPop / RPop return a node (List invariant: Len counts the nodes between Head and Tail; C09 list_never_empty, Ds/ListIdx); LMOVE is in the C09 / C13 suites incl. single-element and src = dst
+  ("memdb/list.go", "lMoveList", "deref popElem.Val <- RPop"),
+  -- same value, second use
+  ("memdb/list.go", "lMoveList", "deref popElem.Val <- RPop"),
+  -- same value, third use
+  ("memdb/list.go", "lMoveList", "deref popElem.Val <- RPop"),
+  -- the tree is instantiated only with *SortedSetNode (SortedSet[*SortedSetNode]); val is a parameter, not a lookup result
+  ("memdb/sorted_set_struct.go", "(*SortedSetNode).Comp", "assert val.(*SortedSetNode)"),
+  -- net.Listen(tcp, …) returned without error: the listener is a *net.TCPListener; start-up, not client input
+  ("raftexample/listener.go", "newStoppableListener", "assert ln.(*net.TCPListener)"),
+  -- Manager.ExecCommand returns nil only for an empty command; this branch runs only when cmdStrings[0] is `rconf`, i.e. len(cmd) >= 1 (cmd and cmdStrings come from the same array); cluster mode
+  ("server/db_manager.go", "(*Manager).HandleCluster", "deref res.ToBytes <- ExecCommand")]
+
+/-- the assertions / dereferences without a dominating presence or nil test are exactly the reviewed ones; the guarded ones
+    (`Generated.nilGuardedSites`: `v, ok := m.ttlKeys.Get(k)` … `v.(*TTLInfo)` behind `ok`, `node := GetByName(…)` … `node.Value` behind `node != nil`)
+    need no review of reachability — the TYPE asserted on a present value is still the reviewed homogeneity of the container, see `expectedDynamic` -/
+theorem nil_unguarded_inventory : Generated.nilUnguardedSites = expectedNilUnguarded := by decide +kernel
+
+/-- the guard recognition is not vacuous -/
+theorem nil_guarded_nonempty : 15 ≤ Generated.nilGuardedSites.length := by decide +kernel
 
 end Sites
